@@ -264,6 +264,31 @@ def newline_only(txt, keep):
     return [p + ("\n" if keep else "") for p in parts[:-1]] + ([parts[-1]] if parts[-1] else [])
 
 
+def render_twins(check, tier):
+    """two values that RENDER the same without being the same - a formatted value and the unformatted value whose text is that rendering
+    taken verbatim (what '' .join([str(f)]) or copy_with_new_str(str(f)) build) - used one after the other, in both orders: each answers
+    for itself (anything remembered under a key that compares by the rendered string would mix them up)"""
+    from curtsies.formatstring import fmtstr as _f
+    bases = [lambda: _f("ab", "red"), lambda: _f("x y", "bold"), lambda: _f(" q", "on_blue", "underline"), lambda: _f("cd", "red") + _f("e", "red"),
+             lambda: FmtStr(Chunk("mn", {"fg": 34, "bold": True}))]
+    s = Suite(check, "C15.render_twins", "5 formatted values and their raw-escape twins (same terminal string, other text and formatting), the full method / "
+              "justify / split comparison on one and then on the other, in both orders", bound="5 pairs x 2 orders", exhaustive=False)
+    for k, mkbase in enumerate(bases):
+        for order in (0, 1):
+            base = mkbase()
+            raw = FmtStr(Chunk(str(mkbase())))
+            for which, v in ((("formatted", base), ("raw twin", raw)) if order == 0 else (("raw twin", raw), ("formatted", base))):
+                s.case((k, order, which), sample=dict(value=repr(v)) if len(s.samples) < 2 else None)
+                try:
+                    d = check_value(None, order, value=v)
+                except Exception as e:      # noqa: BLE001
+                    d = f"comparison raised {type(e).__name__}: {e}"
+                if d:
+                    s.fail("C15.method", dict(runs=[[c.s, dict(c.atts)] for c in v.chunks], order=order, other_boundary=False, twin=which,
+                                              asked_after=("its twin" if (which == "raw twin") == (order == 0) else "nothing")), d[:300])
+    s.done()
+
+
 def derived(check, tier, seed):
     from bounded.derived import derived_values
     n = 2500 if tier == "thorough" else 300
@@ -329,6 +354,7 @@ def run(check, tier, seed):
     import contracts.valuemodel as VM
     for c in VM.ALL:            # this property's contracts are stated over the executor's value model of Chunk / FmtStr: the real constructors and
         verify(c, tier, check, prefix="C15")      # accessors must behave as that model says (same obligations as in C13, decided here too)
+    render_twins(check, tier)
     long_inputs(check, tier)
     deductive(check, tier)
     bounded(check, tier, seed)
